@@ -231,7 +231,7 @@ theorem posts_flat_pair_textarea (T : Tables) (b : Bind) (st st6 : TState) (hp :
     (hT1 : T.autoTag sName sTextarea = true) (hT2 : T.autoTag sValue sTextarea = true)
     (h : transform T sTextarea (some b) st = .ok st6) :
     st6.contents = some (.markup (Flatland.C11.markupEscape T.textChain b.u)) ∧
-    ∀ text, submittedD sTextarea st6.attrs text = some (b.flatName, text) := by
+    ∀ text, submittedD sTextarea st6.attrs text = some (b.flatName, dropLeadingLF text) := by
   obtain ⟨s1, s2, s3, s4, s5, h1, h2, h3, h4, h5, h6⟩ := transform_steps h
   rw [transformName_on T _ b st hp.nameOn hp.noNameOpt hname hp.noName hT1] at h1
   simp only [Except.ok.injEq] at h1
